@@ -17,120 +17,7 @@ from .store_common import CMDS
 from . import handler_common as HC
 from mirse.models.bytesm import Buf, Rope, VTerm, WIRE, vnum, visnum, vutf8
 
-H = Hdr(0)
-
-
-def be(lo, n):
-    return z3.Concat(*[B(lo + i) for i in range(n)])
-
-
-def wire_roundtrip(ck, tier):
-    E = ck.E
-    st = St(2)
-    names = {v: k for k, v in E.enums['BinaryRequest']}
-    for policy in (None, 'random'):
-        mlim = z3.BitVec('mem_limit', 64) if policy else None
-
-        def h(E, policy=policy, mlim=mlim):
-            HC.base_assume(E, st)
-            canon = z3.Or(z3.And(H.op_in(*SET_FAMILY), H.extlen == 8),
-                          z3.And(H.op_in(*APPEND_FAMILY), H.extlen == 0),
-                          z3.And(H.op_in(*GET_FAMILY), H.extlen == 0, H.body64 == H.key64),
-                          z3.And(H.op_in(*INCDEC_FAMILY), H.extlen == 20, H.body64 == 20 + H.key64))
-            E.assume(canon, z3.ULE(H.body, HC.limit))
-            if policy:
-                E.assume(z3.ULE(st.usage, mlim), z3.ULT(mlim, 1 << 62), z3.UGE(mlim - st.usage, BV(1 << 33)))
-            return HC.run_request(E, st, policy=policy, memory_limit=mlim)
-        res = ck.explore(h)
-        small = [z3.ULE(HC.total, 128), z3.ULE(st.cas_id, 1000), z3.ULE(st.now, 100000)]
-        tag = 'wire' if not policy else 'wire+random-policy'
-        nval = 0
-        for p in res:
-            if p.status != 'ok':
-                continue
-            x = p.out
-            if x.tag != 'some':
-                continue
-            v = names[x.req_variant]
-            pc = p.pc
-
-            def on_w(m, where, x=x, policy=policy, mlim=mlim):
-                return HC.confirm(ck, m, st, x, policy, mlim)
-            evict = [e for e in p.events if e[0] in ('map.iter', 'rng')]
-            if policy:
-                ck.obligation(f'{tag}: no eviction below the limit', pc, z3.BoolVal(not evict), {}, on_w, small)
-            r = HC.RespView(E, x.data) if x.data is not None else None
-            post = x.post[0]
-            other = x.post[1]
-            ck.obligation(f'{tag}: other key untouched', pc,
-                          z3.And(other['present'] == st.present[1], same(other['val'], VTerm(st.val[1])), other['flags'] == st.flags[1],
-                                 other['cas'] == st.cas[1], other['ts'] == st.ts[1], other['ttl'] == st.ttl[1]), {}, on_w, small)
-            acked = r is None or z3.is_true(z3.simplify(r.status == 0)) if r is None else None
-            status0 = z3.BoolVal(True) if r is None else (r.status == 0)
-            if v in ('Set', 'SetQuietly', 'Add', 'AddQuietly', 'Replace', 'ReplaceQuietly'):
-                val = post['val']
-                ok_store = z3.BoolVal(False)
-                if isinstance(val, Buf) and val.base.eq(WIRE):
-                    ok_store = z3.And(post['present'], val.off == 32 + H.key64, val.len == H.body64 - 8 - H.key64,
-                                      post['flags'] == be(24, 4), post['ttl'] == be(28, 4), post['cas'] != 0, post['ts'] == st.now)
-                # acknowledged <=> response status 0 (loud) / no response (quiet)
-                if r is not None:
-                    ck.obligation(f'{tag}: acknowledged store holds exactly the frame\'s value, flags, expiration', pc,
-                                  z3.Implies(r.status == 0, z3.And(ok_store, r.cas == post['cas'])), {}, on_w, small)
-                else:
-                    ck.obligation(f'{tag}: silently acknowledged store holds exactly the frame\'s value, flags, expiration', pc, ok_store, {}, on_w, small)
-                ck.cover(f'{tag}: store ' + v, True)
-            elif v in ('Append', 'AppendQuietly', 'Prepend', 'PrependQuietly'):
-                val = post['val']
-                ok_store = z3.BoolVal(False)
-                if isinstance(val, Rope) and len(val.parts) == 2:
-                    a, b = val.parts
-                    if v.startswith('Prepend'):
-                        a, b = b, a
-                    if a[0] == 'val' and b[0] == 'buf' and b[1].base.eq(WIRE):
-                        ok_store = z3.And(a[1] == st.val[0], b[1].off == 24 + H.key64, b[1].len == H.body64 - H.key64,
-                                          post['flags'] == st.flags[0], post['present'])
-                ck.obligation(f'{tag}: acknowledged append/prepend stores old+suffix / prefix+old, flags kept', pc,
-                              z3.Implies(status0, ok_store), {}, on_w, small)
-                ck.cover(f'{tag}: concat ' + v, True)
-            elif v in ('Get', 'GetQuietly', 'GetKey', 'GetKeyQuietly'):
-                if r is not None:
-                    pl = r.payload
-                    hit_ok = z3.BoolVal(False)
-                    if len(pl) >= 2 and pl[0][0] == 'bv' and pl[-1][0] == 'val':
-                        hit_ok = z3.And(pl[0][1] == st.flags[0], pl[-1][1] == st.val[0], r.cas == st.cas[0], r.cas != 0)
-                    ck.obligation(f'{tag}: get hit returns exactly the stored value, flags, cas', pc, z3.Implies(r.status == 0, hit_ok), {}, on_w, small)
-                    ck.obligation(f'{tag}: get hits exactly live items', pc, (r.status == 0) == st.live(0), {}, on_w, small)
-                    ck.cover(f'{tag}: get answered', True)
-                else:
-                    ck.obligation(f'{tag}: quiet get is silent only on a miss', pc, z3.Not(st.live(0)), {}, on_w, small)
-            elif v in ('Increment', 'IncrementQuiet', 'Decrement', 'DecrementQuiet'):
-                delta, init, exp = be(24, 8), be(32, 8), be(40, 4)
-                if r is not None:
-                    pl = r.payload
-                    okv = z3.BoolVal(False)
-                    if len(pl) == 1 and pl[0][0] == 'bv' and pl[0][1].size() == 64:
-                        old = vnum(st.val[0])
-                        if v.startswith('Incr'):
-                            nv = old + delta
-                        else:
-                            nv = z3.If(z3.UGT(delta, old), BV(0), old - delta)
-                        okv = pl[0][1] == z3.If(st.live(0), nv, init)
-                    ck.obligation(f'{tag}: counter response value from the right frame bytes', pc, z3.Implies(r.status == 0, okv), {}, on_w, small)
-                    ck.obligation(f'{tag}: counter creation honours expiration 0xffffffff', pc,
-                                  z3.Implies(z3.Not(st.live(0)), (r.status == 0) == (exp != BV(0xffffffff, 32))), {}, on_w, small)
-                    ck.cover(f'{tag}: counter answered', True)
-            if nval < (25 if tier == 'quick' else 10 ** 6):
-                m = ck.witness(list(pc) + [z3.ULE(HC.total, 4096)], small)
-                if m is not None and m != 'unknown':
-                    nval += 1
-                    okc, desc, sc = HC.confirm(ck, m, st, x, policy, mlim)
-                    if okc:
-                        ck.replays_ok += 1
-                    else:
-                        ck.replays_bad += 1
-                        ck.inconclusive.append('translator validation (wire level): ' + desc)
-        ck.sample({'level': tag, 'paths': len(res)})
+from .wire_rt import wire_roundtrip
 
 
 def run(tier, seed, replay_path=None):
